@@ -60,4 +60,119 @@ PLANS = {
                         "hands is reported is validated by the oracle, not compared literally"],
         "trusted_base": ["model: ModelEval.v (gospers, all_combinations, best_power)"],
     },
+
 }
+
+# ---------------- engine properties ----------------
+CHIPS = ["bk", "init", "stack", "ppot", "wager", "rpot", "cw"]
+RESULT = ["hasres", "ridx", "rfinal", "rchanged", "rpots"]
+GAME_RULE = ("random hands: 2-9 seats, button anywhere, dead small blind 1/4, pot-limit 1/4, short deck 1/4, 4 hole "
+             "cards with 2 required 1/5, ante / blinds / dealer blind 0 or small, bankrolls 1..40 (1/12 of the hands "
+             "10^3..10^15), 1/6 of the decks stacked so that the board plays (split pots); actions drawn from the offer "
+             "with boundary amounts; at a quarter of the visited states every seat x every action x the amount set "
+             "{min int64,-3,-1,0,1,CW-1,CW,CW+1,CW+PRS-1,CW+PRS,stack-1,stack,stack+1,initial-1,initial,initial+1,max int64} "
+             "and the four table operations are tried on JSON clones; every operation is also run through "
+             "table.NativeBackend from the serialised state. non-trivial = the hand saw an all-in, a fold or a showdown; "
+             "distinct = distinct (configuration, operation list)")
+GAME_ASSUME = ["valid configurations (DESIGN.md 2.1); amounts are int64 and the sum of bankrolls is below 2^61 (model uses Z)",
+               "operations are those of table/native_backend.go plus Game.Player(i).<action>"]
+
+
+def game_plan(keys, cmds=None, extra_quick=None, extra_thorough=None, rule_extra="", n_quick=120):
+    k = {"game": keys}
+    q = [("game", {"n": n_quick, "cmds": cmds})]
+    t = [("game", {"n": 4000, "cmds": cmds}), ("game", {"mode": "exhaustive", "scope": 3, "cmds": cmds})]
+    return {
+        "keys": k,
+        "corpus": ["game"],
+        "quick": q + (extra_quick or []),
+        "thorough": t + (extra_thorough or []),
+        "search": [("game", {"n": 1500}), ("game", {"mode": "exhaustive", "scope": 2})],
+        "rule": GAME_RULE + rule_extra,
+        "assumptions": GAME_ASSUME,
+        "trusted_base": ["model: ModelGame.v (create, step, view, erase) with ModelPot/ModelSettle/ModelEval"],
+    }
+
+
+PLANS["C01"] = game_plan(["o", "same"] + CHIPS + ["pots"] + RESULT)
+PLANS["C02"]["keys"]["game"] = RESULT + ["pots", "potlevels", "fold", "cpower"]
+PLANS["C02"]["corpus"] = ["settle", "game"]
+PLANS["C02"]["quick"].append(("game", {"n": 100, "cmds": ["game-do", "game-new"]}))
+PLANS["C02"]["thorough"].append(("game", {"n": 4000, "cmds": ["game-do", "game-new"]}))
+PLANS["C04"] = game_plan(["o", "same", "ev", "rd", "cur", "allowed"])
+PLANS["C05"] = game_plan(["o", "ev", "rd", "cw", "acted", "fold", "stack", "wager", "board", "dpos"], cmds=["game-do", "game-new"])
+PLANS["C06"] = game_plan(["o", "same", "ev", "rd", "hasres"])
+PLANS["C07"] = game_plan(None, cmds=["game-do", "game-new"],
+                         rule_extra="; every field of the state is compared after every operation")
+PLANS["C07"]["quick"].append(("schema", {}))
+PLANS["C07"]["thorough"].append(("schema", {}))
+PLANS["C10"]["keys"]["game"] = ["ctype", "cpower", "ccards"]
+PLANS["C10"]["corpus"] = ["best", "game"]
+PLANS["C10"]["quick"].append(("game", {"n": 100, "cmds": ["game-do", "game-new"]}))
+PLANS["C10"]["thorough"].append(("game", {"n": 4000, "cmds": ["game-do", "game-new"]}))
+PLANS["C11"] = game_plan(["o", "allowed"] + CHIPS)
+PLANS["C12"] = game_plan(["o", "same", "prs", "raiser"] + CHIPS)
+PLANS["C13"] = game_plan(["o", "ppot", "wager", "stack", "cw", "prs", "minibet"], cmds=["game-do", "game-new"])
+PLANS["C14"] = game_plan(["o", "deck", "dpos", "board", "burned", "hole"], cmds=["game-do", "game-new"],
+                         extra_quick=[("shuffle", {"n": 2000})], extra_thorough=[("shuffle", {"n": 100000})])
+PLANS["C15"] = game_plan(None, cmds=["game-view"],
+                         rule_extra="; at every visited state the JSON of AsPlayer(i) for every seat and of AsObserver() "
+                                    "is searched for every card the viewer may not see; two views per state go to the model")
+PLANS["C15"]["quick"].append(("schema", {}))
+PLANS["C15"]["thorough"].append(("schema", {}))
+PLANS["C16"]["keys"]["game"] = ["pots", "potlevels"]
+PLANS["C16"]["corpus"] = ["pot", "game"]
+PLANS["C16"]["quick"].append(("game", {"n": 100, "cmds": ["game-do", "game-new"]}))
+
+# ---------------- seat manager ----------------
+SEAT_RULE = ("random histories of join(seat | any | out-of-range) / sit-in / reserve / leave / next on tables of 1-10 seats, "
+             "the newcomer scenario of C08, and the complete reachable graph (ApplyStates) for tables up to `scope` seats; "
+             "non-trivial = a history with at least two successful next-hand moves; distinct = distinct histories")
+
+
+def seat_plan(keys):
+    return {
+        "keys": {"seat": keys},
+        "corpus": ["seat"],
+        "quick": [("seat", {"n": 600}), ("seat", {"mode": "exhaustive", "scope": 4})],
+        "thorough": [("seat", {"n": 20000}), ("seat", {"mode": "exhaustive", "scope": 5, "timeout": 3000})],
+        "search": [("seat", {"n": 6000}), ("seat", {"mode": "exhaustive", "scope": 4})],
+        "rule": SEAT_RULE,
+        "assumptions": ["each public SeatManager method is atomic (it runs under sm.mu)"],
+        "trusted_base": ["model: ModelSeat.v (sm_step, next_dealer, renew)"],
+    }
+
+
+PLANS["C08"] = seat_plan(["o", "occ", "act", "res", "pos"])
+PLANS["C17"] = seat_plan(["o", "occ", "act", "res", "pos"])
+PLANS["C18"] = seat_plan(["o", "ret", "occ", "res"])
+PLANS["C18"]["quick"].append(("race", {"n": 20}))
+PLANS["C18"]["thorough"].append(("race", {"n": 2000}))
+
+# ---------------- regulator ----------------
+REG_RULE = ("random histories of AddPlayers (batches 1-52), SetStatus, SyncState with eliminations, delayed and immediate "
+            "ReleasePlayers, syncs of unknown tables, registrations after the deadline, under settings 2<=min<=max<=10 "
+            "(half at 9/6), each ending in a settle phase (sweeps without registrations or eliminations); the table "
+            "picked by each dispatch (Go map order) is observed and fed to the model; exhaustive = initial allocation for "
+            "every setting up to `scope` and 0..200 registrants in both orders; non-trivial = at least two tables opened")
+
+
+def reg_plan():
+    return {
+        "keys": {"reg": None},
+        "corpus": ["reg"],
+        "quick": [("reg", {"n": 500})],
+        "thorough": [("reg", {"n": 60000, "timeout": 6000}), ("reg", {"mode": "exhaustive", "scope": 12})],
+        "search": [("reg", {"n": 5000})],
+        "rule": REG_RULE,
+        "assumptions": ["callbacks succeed (tables follow the regulator's instructions)",
+                        "player counts below 2^26 (float comparisons equal rational ones)",
+                        "each call eliminates at most the players present"],
+        "trusted_base": ["model: ModelReg.v; regulator/verif_hooks.go (read-only snapshot, build tag verif)"],
+    }
+
+
+PLANS["C09"] = reg_plan()
+PLANS["C19"] = reg_plan()
+PLANS["C19"]["quick"].append(("reg", {"mode": "exhaustive", "scope": 6}))
+PLANS["C20"] = reg_plan()
